@@ -234,6 +234,8 @@ void DOMAttrImpl::release()
 
     DOMDocumentImpl* doc = (DOMDocumentImpl*)fParent.fOwnerDocument;
     if (doc) {
+        // the memory is recycled: getElementById must not find this attribute any more
+        removeAttrFromIDNodeMap();
         fNode.callUserDataHandlers(DOMUserDataHandler::NODE_DELETED, 0, 0);
         fParent.release();
         doc->release(this, DOMMemoryManager::ATTR_OBJECT);
